@@ -371,6 +371,8 @@ def run(ctx, res):
     common.rule_find_node_identity(ctx, res)
     gate_inside = rule_response_routing(ctx, res)
     rule_tid_gate(ctx, res, d, gate_inside=bool(gate_inside))
+    from . import c19
+    c19.rule_prefix_extraction(ctx, res)
     rule_add_nodes_shape(ctx, res)
     rule_bootstrap_exchange(ctx, res)
     rule_routers(ctx, res)
